@@ -73,6 +73,20 @@ def diagonal (diag : Array α) : Mat α := ⟨diag.size, diag.size, diag, .bande
 def lowerTriangular (n : Nat) : Mat α := banded n (n - 1) 0
 def upperTriangular (n : Nat) : Mat α := banded n 0 (n - 1)
 
+/-- body of the default `IVP::mass` (src/ivp.rs): writes the unit diagonal, `k` entries done so far -/
+def defaultMassLoop (A : Mat α) : Nat → Option (Mat α)
+  | 0 => some A
+  | k + 1 => match defaultMassLoop A k with
+    | some B => B.set k k Num.one
+    | none => none
+
+/-- the default `IVP::mass`: `Identity` storage is left alone (it cannot be written), any other storage gets the
+    unit diagonal -/
+def defaultMass (A : Mat α) : Option (Mat α) :=
+  match A.storage with
+  | .identity => some A
+  | _ => defaultMassLoop A (min A.n A.m)
+
 /-- `is_identity` -/
 def isIdentity (A : Mat α) : Option Bool :=
   match A.storage with
